@@ -356,7 +356,7 @@ def c08(tier):
             plan.append(plan_line(p["fen"], "depth %d" % d, tt=rnd.choice(["fresh", "warm"]), tag="m1"))
     # announcements: shallow searches over many sparse and game positions (where the all-moves-pruned value shows), real session histories:
     # the same root repeated, then its table reused
-    n = 60000 if full else 9000
+    n = 40000 if full else 9000
     rnd.shuffle(pool)
     for i in range(n):
         p = pool[i % len(pool)]          # every pool position before any repeats
@@ -364,7 +364,7 @@ def c08(tier):
         plan.append(plan_line(p["fen"], "depth %d" % d, tt="fresh" if i % 25 == 0 else "warm", tag="ann"))
         if i % 10 == 0:
             plan.append(plan_line(p["fen"], "depth %d" % min(d + 1, 4), tt="warm", tag="ann"))
-    viols, cnt, info, sh = run_plan(ck, exe, plan, "m", filt="mate", keep_every=400 if full else 150, mate_maxn=3 if full else 2, timeout=6000)
+    viols, cnt, info, sh = run_plan(ck, exe, plan, "m", shards=48 if full else 16, filt="mate", keep_every=400 if full else 150, mate_maxn=2, timeout=6000, procs=8 if full else 1)
     if cnt.get("mate_claims", 0) == 0 or cnt.get("mate1_roots", 0) == 0:
         raise InfraError("vacuous C08 run: %s" % cnt)
     # positions NEAR a forced mate (generator: nearmate-pool; the oracle decides every announcement as above)
@@ -375,7 +375,7 @@ def c08(tier):
     gens = 8
     def gen(i):
         outp = os.path.join(ck.work, "nearmate%d.txt" % i)
-        core.run_vh(exe, ["nearmate-pool", "--out", outp, "--refuted", (500 if full else 50), "--zugzwang", (12 if full else 0), "--max-tries", 600000,
+        core.run_vh(exe, ["nearmate-pool", "--out", outp, "--refuted", (250 if full else 50), "--zugzwang", (12 if full else 0), "--max-tries", 600000,
                           "--seed", core.seed() * 100 + i], timeout=3000)
         return [l.rstrip("\n").split("|") for l in open(outp)]
     with ThreadPoolExecutor(max_workers=gens) as ex:
@@ -390,7 +390,7 @@ def c08(tier):
     zz = [l.strip() for l in open(os.path.join(DATA, "roots_zugzwang.fen")) if l.strip() and not l.startswith("#")]
     for fen in zz:
         plan2.append(plan_line(fen, "depth 11", tt="fresh", tag="zz"))
-    v2, c2, i2, sh2 = run_plan(ck, exe, plan2, "n", filt="mate", keep_every=400, mate_maxn=3 if full else 2, timeout=6000, procs=12)
+    v2, c2, i2, sh2 = run_plan(ck, exe, plan2, "n", shards=48 if full else 12, filt="mate", keep_every=400, mate_maxn=2, timeout=6000, procs=12)
     viols += v2
     for k, v in c2.items():
         cnt[k] = cnt.get(k, 0) + v
@@ -413,7 +413,7 @@ def c08(tier):
                       "engine's pv move as a hint, then exhaustively up to %d moves); claims beyond that bound are decided by the harness's exhaustive solver (same definition, over the "
                       "engine's move generator, 4M-node budget; cross-checked against the specification's verdict on every claim within the bound: see solver_agrees) or "
                       "counted as undecided (%d this run), never as violations. "
-                      "distinct_nontrivial = mate announcements decided + roots with a mate in one") % (info["runs"], 4 if full else 3, 3 if full else 2, cnt.get("mate_undecided", 0))
+                      "distinct_nontrivial = mate announcements decided + roots with a mate in one") % (info["runs"], 4 if full else 3, 2, cnt.get("mate_undecided", 0))
     ck.cov["monitor_counters"] = cnt
     ck.cov["runs_logged_for_the_oracle"] = info["logged"]
     ck.sample(first_run(sh))
